@@ -9,7 +9,7 @@ export GOFLAGS=-mod=mod GOPROXY=off GOSUMDB=off GOTOOLCHAIN=local
 meta=$OUT/$M.json
 [ -f $OUT/$M.diff ] || { echo "no diff"; exit 2; }
 git -C $WT checkout -q -- . ; git -C $WT clean -fdq
-python3 - "$meta" "$OUT" "$M" "$WT" <<'PY' > /tmp/seed_env.sh
+python3 - "$meta" "$OUT" "$M" "$WT" <<'PY' > /tmp/seed_env_$P$M.sh
 import json,sys,os,shlex
 meta,out,m,wt=sys.argv[1:5]
 j=json.load(open(meta))
@@ -37,26 +37,29 @@ elif isinstance(dp,str):
 print("DEMO_CMD=%s"%shlex.quote(cmd))
 print("DEMO_PAIRS=%s"%shlex.quote(";".join("%s=%s"%p for p in pairs)))
 PY
-. /tmp/seed_env.sh
+. /tmp/seed_env_$P$M.sh
 echo "demo cmd: $DEMO_CMD"; echo "pairs: $DEMO_PAIRS"
 IFS=';' read -ra PAIRS <<< "$DEMO_PAIRS"
 for pr in "${PAIRS[@]}"; do src=${pr%%=*}; dst=${pr#*=}; dst=${dst#/tmp/mut-$P/}; mkdir -p $WT/$(dirname $dst); cp $src $WT/$dst; done
-( cd $WT && timeout 600 bash -c "$DEMO_CMD" > /tmp/seed_demo_clean.log 2>&1 ); RC_CLEAN=$?
+( cd $WT && timeout 600 bash -c "$DEMO_CMD" > /tmp/seed_demo_clean_$P$M.log 2>&1 ); RC_CLEAN=$?
 git -C $WT apply $OUT/$M.diff || { echo "diff does not apply"; exit 2; }
-( cd $WT && go build ./... > /tmp/seed_build.log 2>&1 ); RC_BUILD=$?
-( cd $WT && timeout 600 bash -c "$DEMO_CMD" > /tmp/seed_demo_mut.log 2>&1 ); RC_MUT=$?
+( cd $WT && go build ./... > /tmp/seed_build_$P$M.log 2>&1 ); RC_BUILD=$?
+( cd $WT && timeout 600 bash -c "$DEMO_CMD" > /tmp/seed_demo_mut_$P$M.log 2>&1 ); RC_MUT=$?
 git -C $WT checkout -q -- . ; git -C $WT clean -fdq
 echo "demo without change rc=$RC_CLEAN ; build with change rc=$RC_BUILD ; demo with change rc=$RC_MUT"
-# run the checks against /repo with the change applied
-git -C /repo apply $OUT/$M.diff || { echo "does not apply to /repo"; exit 2; }
+# run the checks against a scratch worktree of /repo's HEAD with the change applied (VERIF_REPO), so that /repo itself
+# is never touched and other checks can run meanwhile
+SR=/tmp/seedrepo-$P-$M
+git -C /repo worktree remove --force $SR >/dev/null 2>&1; rm -rf $SR
+git -C /repo worktree add -q --detach $SR HEAD || { echo "worktree failed"; exit 2; }
+git -C $SR apply $OUT/$M.diff || { echo "does not apply to HEAD"; git -C /repo worktree remove --force $SR; exit 2; }
 RES=""
 for c in $CHECKS; do
-  ( cd /verif && timeout 1500 bin/check $c quick > /tmp/seed_check_$c.log 2>&1 ); rc=$?
-  v=$(grep -m1 "^VIOLATION" /tmp/seed_check_$c.log | cut -c1-160)
-  RES="$RES $c:rc=$rc"; echo "check $c rc=$rc  $v"; tail -1 /tmp/seed_check_$c.log | cut -c1-200
+  ( cd /verif && VERIF_REPO=$SR timeout 1500 bin/check $c ${TIER:-quick} > /tmp/seed_check_${P}_${M}_$c.log 2>&1 ); rc=$?
+  v=$(grep -m1 "^VIOLATION" /tmp/seed_check_${P}_${M}_$c.log | cut -c1-160)
+  RES="$RES $c:rc=$rc"; echo "check $c rc=$rc  $v"; tail -1 /tmp/seed_check_${P}_${M}_$c.log | cut -c1-200
 done
-git -C /repo checkout -q -- . ; git -C /repo clean -fdq -e nothing >/dev/null 2>&1
-git -C /repo status --short | head -3
+git -C /repo worktree remove --force $SR; rm -rf $SR
 D=/verif/seeded/$P-$M; mkdir -p $D; cp $OUT/$M.diff $D/patch.diff; cp -r $OUT/${M}_demo $D/demo 2>/dev/null; 
 python3 - "$meta" "$D" "$RC_CLEAN" "$RC_BUILD" "$RC_MUT" "$RES" <<'PY'
 import json,sys
